@@ -202,6 +202,10 @@ fn oracle_profile(run: &mut Run, idx: usize, violations: &[&'static str], accept
     if violations == ["not-valid-at-signing-time"] && !failures.iter().any(|c| c == "signingCredential.expired") {
         run.fail(idx, "expired-wrong-code", format!("validity violation reported as {failures:?}"));
     }
+    // …and `expired` is the code of the validity window only
+    if failures.iter().any(|c| c == "signingCredential.expired") && !violations.contains(&"not-valid-at-signing-time") {
+        run.fail(idx, "expired-code-without-validity-violation", format!("violates {violations:?} but reported {failures:?}"));
+    }
 }
 
 /// One end-to-end case: sign with the credential, read with/without the issuing root anchored.
@@ -285,6 +289,9 @@ fn e2e_case(run: &mut Run, w: &mut World, plan: &Plan, anchored: bool, verify_tr
         .failure
         .iter()
         .any(|c| c == "signingCredential.invalid" || c == "signingCredential.expired");
+    if out.failure.iter().any(|c| c == "signingCredential.expired") && !violations.contains(&"not-valid-at-signing-time") {
+        run.fail(idx, "expired-code-without-validity-violation", format!("violates {violations:?} but reader says {}", out.line()));
+    }
     if !violations.is_empty() {
         if out.state != "invalid" || !cred_failure {
             let class = if violations == ["key-usage-no-digital-signature"] {
